@@ -41,6 +41,7 @@ PY
   # per-function figures, resolved against the sources that were actually compiled
   if [ -d "$D/verif" ]; then (cd "$D/verif" && go tool cover -func="$OUT/$ID.prof.txt") > "$OUT/$ID.func.txt" 2>/dev/null
   else go tool cover -func="$OUT/$ID.prof.txt" > "$OUT/$ID.func.txt" 2>/dev/null; fi
+  if [ -d "$D/lime" ]; then rm -rf "$OUT/lime-rw"; mkdir -p "$OUT/lime-rw"; cp "$D"/lime/*.go "$OUT/lime-rw/"; fi
   rm -rf "$D/cov" "$D/lime" "$D/verif" "$D/check.bin"
 done
 # merged per function: the best figure any check reaches
@@ -60,4 +61,34 @@ with open(out+'/merged.func.txt','w') as w:
     for k in sorted(best): w.write('%-28s %-45s %5.1f%%  %s\n'%(k[0],k[1],best[k],who.get(k,'')))
 zero=[k for k in best if best[k]==0]
 print('functions: %d, never reached by any quick tier: %d, below 60%%: %d'%(len(best),len(zero),sum(1 for k in best if 0<best[k]<60)))
+PY
+
+# gosim checks share one rewritten source: merge their block profiles and list what no check reaches
+python3 - "$OUT" <<'PY'
+import sys,glob,collections,os
+out=sys.argv[1]
+blocks=collections.defaultdict(int)
+for f in glob.glob(out+'/C*.prof.txt'):
+    cid=os.path.basename(f).split('.')[0]
+    if os.path.isdir('/verif/seqx/'+cid.lower()): continue
+    for l in open(f):
+        if l.startswith('mode:'): continue
+        loc,n,c=l.rsplit(' ',2)
+        blocks[loc]=max(blocks[loc],int(c))
+src={}
+def lines(fn):
+    if fn not in src:
+        try: src[fn]=open(out+'/lime-rw/'+fn).read().split('\n')
+        except: src[fn]=[]
+    return src[fn]
+with open(out+'/gosim-uncovered.txt','w') as w:
+    for loc in sorted(blocks, key=lambda k:(k.split(':')[0], int(k.split(':')[1].split('.')[0]))):
+        if blocks[loc]: continue
+        fn,rng=loc.split(':'); fn=fn.split('/')[-1]
+        a,b=rng.split(','); l1=int(a.split('.')[0]); l2=int(b.split('.')[0])
+        L=lines(fn)
+        w.write('--- %s:%d-%d\n'%(fn,l1,l2))
+        for i in range(l1-1,min(l2,l1+5)):
+            if i<len(L): w.write('    '+L[i]+'\n')
+print('uncovered blocks (gosim checks):', sum(1 for k in blocks if not blocks[k]), 'of', len(blocks))
 PY
